@@ -534,3 +534,31 @@ func malformedStmt(r *core.Rand) string {
 		return base + " '"
 	}
 }
+
+// mutateLiteral changes one plain literal (a %%VALUE%% position holding a number or a string) in place and returns
+// its position and a function that undoes the change; pos = -1 when the statement has no such literal.
+func mutateLiteral(s *gstmt, r *core.Rand) (int, func()) {
+	var cands []*gnode
+	var walk func(n *gnode)
+	walk = func(n *gnode) {
+		if n.kind == gGen && n.ph == "%%VALUE%%" && len(n.kids) == 1 && n.kids[0].kind == gWord {
+			cands = append(cands, n)
+		}
+		for _, k := range n.kids {
+			walk(k)
+		}
+	}
+	walk(s.root)
+	if len(cands) == 0 {
+		return -1, func() {}
+	}
+	n := core.Pick(r, cands)
+	w := n.kids[0]
+	old := w.text
+	if strings.HasPrefix(old, "'") {
+		w.text = "'zz" + old[1:]
+	} else {
+		w.text = "7" + old
+	}
+	return n.pos, func() { w.text = old }
+}
